@@ -30,7 +30,7 @@ RULE = ('each run = generated tree with sub-Manifests, replicated twice; up to 6
         'modifies one file right after A\'s running update closed it; non-trivial = at least one round modified '
         'a file; distinct = distinct seam event-log digest')
 PLAN = {'quick': {'n': 4000, 'budget_s': 90, 'block': 15},
-        'thorough': {'n': 40000, 'budget_s': 1200, 'block': 100}}
+        'thorough': {'n': 200000, 'budget_s': 2400, 'block': 100}}
 ASSUMPTIONS = ['file mtimes are set explicitly (os.utime) from the simulated clock; the kernel only stores them',
                'TIMESTAMP lines are excluded from the replica comparison']
 COMPONENTS_STUB = ['datetime.utcnow inside gemato.cli (shim reading the simulated clock)', 'local timezone (TZ + tzset per CLI call)']
